@@ -284,7 +284,7 @@ pub fn c01(big: bool) -> BoxedStrategy<Case> {
     let spawn = prop_oneof![
         7 => plain_spawn(false),
         1 => plain_spawn(true),
-        1 => (mailbox(), 3u32..8, any::<bool>()).prop_map(|(mailbox, t, owning)| SpawnSpec::Build { mailbox, strategy: RStrat::Default, timeout: Some(t), fail_on_timeout: false, owning }),
+        1 => (mailbox(), 3u32..8, any::<bool>(), prop_oneof![2 => Just(RStrat::Default), 1 => Just(RStrat::Recreate), 1 => Just(RStrat::NonRestartable)]).prop_map(|(mailbox, t, owning, strategy)| SpawnSpec::Build { mailbox, strategy, timeout: Some(t), fail_on_timeout: false, owning }),
         1 => stream_spawn(),
     ];
     let w = OpWeights { call_drop: 3, restart: 2, ..MSG_WEIGHTS };
@@ -599,6 +599,8 @@ pub fn c05(big: bool) -> BoxedStrategy<Case> {
                                 (1, (any::<u8>(), 90u8..140).prop_map(|(stream, n)| ClientOp::Feed { stream, n }).boxed()),
                                 (4, export_weak_op()),
                                 (2, h().prop_map(|h| ClientOp::JoinLazyDetach { h }).boxed()),
+                                // another instance tries to register (refused while the registered one lives)
+                                (2, reg_op(1, [0, 0, 3, 0, 0, 1, 1])),
                             ],
                         ),
                         2..=max_ops,
@@ -698,7 +700,11 @@ pub fn c12(big: bool) -> BoxedStrategy<Case> {
             }
             if flood {
                 // an unbounded mailbox far behind: one slow message, then a long run of sends
-                spawn = SpawnSpec::Build { mailbox: Mailbox::Unbounded, strategy: RStrat::Default, timeout: None, fail_on_timeout: false, owning };
+                spawn = if schedule.len() % 2 == 0 {
+                    SpawnSpec::Build { mailbox: Mailbox::Unbounded, strategy: RStrat::Default, timeout: None, fail_on_timeout: false, owning }
+                } else {
+                    SpawnSpec::Stream { builder: Some(Mailbox::Unbounded), owning, timeout: None }
+                };
                 let mut prog = vec![ClientOp::Send { h: 0, work: vec![Step::Sleep(6)] }];
                 prog.extend((0..90).map(|i| ClientOp::Send { h: (i * 7919) as u16, work: vec![] }));
                 clients[0] = prog;
@@ -722,6 +728,7 @@ pub fn c07(big: bool) -> BoxedStrategy<Case> {
     let strat = prop_oneof![3 => Just(RStrat::Default), 3 => Just(RStrat::Recreate), 1 => Just(RStrat::NonRestartable)];
     let spawn = prop_oneof![
         1 => Just(SpawnSpec::Spawn),
+        1 => prop_oneof![Just(SpawnSpec::SpawnOwning), Just(SpawnSpec::SpawnDefault), Just(SpawnSpec::SpawnDefaultOwning)],
         6 => (mailbox(), strat.clone(), any::<bool>()).prop_map(|(mailbox, strategy, owning)| SpawnSpec::Build { mailbox, strategy, timeout: None, fail_on_timeout: false, owning }),
         2 => (mailbox(), strat, any::<bool>(), 2u32..6, any::<bool>()).prop_map(|(mailbox, strategy, owning, t, fail_on_timeout)| SpawnSpec::Build { mailbox, strategy, timeout: Some(t), fail_on_timeout, owning }),
     ];
